@@ -4,7 +4,10 @@ import json, os
 VERIF = os.path.dirname(os.path.dirname(os.path.abspath(__file__)))
 ALL = ['C%02d' % i for i in range(1, 21)]
 # property -> (technique, level text, level note, design ref)
-CLAIMED = json.load(open(os.path.join(VERIF, 'harness', 'claims.json')))
+import glob
+CLAIMED = {}
+for f in sorted(glob.glob(os.path.join(VERIF, 'harness', 'claims.d', '*.json'))):
+    CLAIMED.update(json.load(open(f)))
 m = {
     'version': 1,
     'setup_cmd': './setup.sh',
